@@ -30,6 +30,9 @@ def dispatch (op : String) (j : Json) : R Json :=
   | "kdbx3read" => opKdbx3Read j
   | "kdbread" => opKdbRead j
   | "selftest" => opSelfTest j
+  -- inputs too large for the executable model (attachments of several MiB): the case passes through, only the property's
+  -- executable specification is evaluated on the real outcome
+  | "specOnly" => pure (Json.mkObj [("model", Json.null)])
   | _ => throw s!"unknown op {op}"
 
 def handleLine (line : String) : String :=
